@@ -174,6 +174,58 @@ func genC20(r *vh.Runner) {
 		})
 	}
 
+	// long repetitive names: the matcher has to reconsider its choice for a
+	// '*' many times (work quadratic in the lengths) and must still say yes
+	// exactly when the declarative definition does
+	nBack := r.Pick(12, 4000)
+	for b := 0; b < nBack; b++ {
+		r.Case(fmt.Sprintf("backtrack/%d", b), map[string]any{"batch": b}, func(c *vh.Case) {
+			rng := vh.NewRand(r.Seed, "glob-back", b)
+			seen := map[string]int{}
+			for k := 0; k < 60; k++ {
+				x := "ab.-0"[rng.Intn(5)]
+				y := "bz.x"[rng.Intn(4)]
+				if y == x {
+					y = 'q'
+				}
+				rep := func(ch byte, n int) string { return strings.Repeat(string(ch), n) }
+				kx, nx := 1+rng.Intn(40), rng.Intn(250)
+				var pat, in string
+				switch rng.Intn(5) {
+				case 0: // *x^k y  against  x^n y
+					pat, in = "*"+rep(x, kx)+string(y), rep(x, nx)+string(y)
+				case 1: // prefix-*x^k.tail against prefix-x^n.tail (host names)
+					tail := ".example.com"
+					pat, in = "node-*"+rep(x, kx)+tail, "node-"+rep(x, nx)+tail
+				case 2: // many stars: *x*x*x...y
+					pat = strings.Repeat("*"+string(x), 1+rng.Intn(12)) + string(y)
+					in = rep(x, nx) + string(y)
+				case 3: // near miss: the tail differs in its last byte
+					pat, in = "*"+rep(x, kx)+string(y)+"c", rep(x, nx)+string(y)+"d"
+				default: // x^k*x^k against x^n
+					pat, in = rep(x, kx)+"*"+rep(x, kx), rep(x, nx)
+				}
+				r.Count("evaluations", 1)
+				r.Count("glob_pairs_backtracking", 1)
+				r.Max("max_backtracking_input_len", int64(len(in)))
+				r.Nontrivial("gb|" + pat + "|" + in)
+				if sig, mm := judge(pat, in); sig != "" {
+					seen[sig]++
+					if seen[sig] == 1 {
+						c.Violate(sig, mm)
+					}
+				}
+				// the same pair through the client's host-pattern matcher
+				if got, want := config.MatchHostPattern(pat, in), ref(pat, in); got != want {
+					if seen["mhp"] == 0 {
+						c.Violate("C20:matchhostpattern:disagrees-with-definition", map[string]any{"pattern": pat, "input": in, "got": got, "want": want})
+					}
+					seen["mhp"]++
+				}
+			}
+		})
+	}
+
 	// MatchHost and VirtualHosts.Match on block lists
 	nCfg := r.Pick(60, 300000)
 	for b := 0; b < nCfg; b++ {
